@@ -124,7 +124,11 @@ class DenseNormal(ssm_impl_api.AbstractTreeNormal[DenseTreeFlatten]):
         mean_flat = tree_flatten.flatten_tree(mean)
         std_flat = tree_flatten.flatten_tree(std)
 
-        assert mean_flat.shape == std_flat.shape
+        if tree.tree_map(np.shape, std) != tree.tree_map(np.shape, mean):
+            msg = "'std' must have the same pytree structure and leaf shapes as mean. "
+            msg += f"Expected: {tree.tree_map(np.shape, mean)}. "
+            msg += f"Received: {tree.tree_map(np.shape, std)}."
+            raise ValueError(msg)
         cholesky = linalg.diagonal_matrix(std_flat)
         return cls(mean_flat, cholesky, tree_flatten)
 
